@@ -116,15 +116,26 @@ OpResult World::op_make_face(const Op &op) {
     } else {
         for (auto &ft : op.faults) if (ft.kind.compare(0, 4, "OVR_") != 0 && !is_file_fn(ft.tag)) f.store->faults.push_back(ft);
         gr_face_ops ops; ops.size = sizeof(gr_face_ops); ops.get_table = store_get_table; ops.release_table = rel_null ? 0 : store_release_table;
-        if (short_ops) ops.size = offsetof(gr_face_ops, release_table);
+        // An older client's ops structure: size says it ends before release_table, and it really does (its own exact-size
+        // heap block, so that reading the member that is not there is an out-of-bounds read, not a lucky hit in my struct).
+        gr_face_ops *pops = &ops; void *short_block = 0;
+        if (short_ops) {
+            ops.size = offsetof(gr_face_ops, release_table);
+            short_block = malloc(ops.size); memcpy(short_block, &ops, ops.size); pops = static_cast<gr_face_ops *>(short_block);
+            f.store->release_forbidden = true;
+            probe("load:short-ops-struct");
+        }
         f.release_null = rel_null || short_ops || (ctor & 1);
+        {
         API("gr_make_face", BUDGET_LOAD);
         switch (ctor & 3) {
-        case 0: face = gr_make_face_with_ops(f.store, &ops, f.options); break;
+        case 0: face = gr_make_face_with_ops(f.store, pops, f.options); break;
         case 1: face = gr_make_face(f.store, store_get_table, f.options); break;
-        case 2: face = gr_make_face_with_seg_cache_and_ops(f.store, &ops, 1000, f.options); break;
+        case 2: face = gr_make_face_with_seg_cache_and_ops(f.store, pops, 1000, f.options); break;
         case 3: face = gr_make_face_with_seg_cache(f.store, store_get_table, 1000, f.options); break;
         }
+        }
+        free(short_block);
     }
     f.face = face; f.alive = face != 0;
     r.v.push_back(face ? 1 : 0);
